@@ -24,6 +24,13 @@ CHECKS = {
              "PrimFloat (binary64) twin and to the rational model on an exact dyadic domain; RealQuantizer/ComplexQuantizer histories are "
              "run against the refresh state machine; range/monotonicity/formula/zero-variance are re-evaluated on the implementation.",
         design="3/C09", technique="Coq proof over Q + induction on call histories; PrimFloat bit-exact twin; history correspondence"),
+    "C08": dict(
+        text="Theorems for all (taps, branches), all streams and all admissible chunkings, generic in the sample type and the per-window "
+             "function (hence valid for doubles): cached chunked channelisation = one-shot rows, exact spectrum count, interleaved objects "
+             "and cache=False calls do not interact; over Z: each output sample is the window-weighted sum of the definition, and the "
+             "weighted sum is linear. Model rows (exact integers) are pushed through numpy's FFT and must equal channelize() bit for bit "
+             "call by call; chunked-vs-one-shot, complex split, linearity and the O(n^2) DFT definition are evaluated on the implementation.",
+        design="3/C08", technique="Coq induction over chunk lists (routing, law-free) + exact-integer correspondence through numpy FFT"),
 }
 
 PENDING_REASON = "check not built yet in this session (planned in DESIGN.md section 3); no claim is made for it in this commit"
